@@ -5,8 +5,11 @@ import (
 	"bytes"
 	"crypto/sha1"
 	"encoding/binary"
+	"encoding/json"
 	"fmt"
 	"io"
+	"os"
+	"os/exec"
 	"strings"
 
 	proto "github.com/golang/protobuf/proto"
@@ -39,7 +42,7 @@ func init() {
 		ID:     "C06",
 		Word32: true,
 		Level:  "model_checking",
-		Rule: "E3 stateless deviation-bounded DFS over a scripted io.Reader: (frames) every frame of the alphabet {generated protobuf message, its versioned wrapper, legacy Marshal/Unmarshal message, its versioned variant} × payload lengths {0,1,2,31,32,33,127,128,129,5000, 2^20+1 (+65535, 65536, 2^20, 2^21+5 thorough)} × versions (every length 0..16, an interior NUL, a leading NUL, trailing spaces): Marshal's count = bytes written = Size = HeaderSize + encoding length, wire bytes = independently built header + encoding, ReadHeader = (version, 32, length) consuming 32 bytes; " +
+		Rule: "Scheduled part (E4 on the instrumented pbcmpl and iohelper packages): every unordered pair of {Marshal, Unmarshal} × 7 frames as a 2-thread program - each thread with its own message, writer and reader -, every schedule with at most 2 (thorough 3) preemptions; each thread must meet the per-frame obligations exactly as when it runs alone. Sequential part: E3 stateless deviation-bounded DFS over a scripted io.Reader: (frames) every frame of the alphabet {generated protobuf message, its versioned wrapper, legacy Marshal/Unmarshal message, its versioned variant} × payload lengths {0,1,2,31,32,33,127,128,129,5000, 2^20+1 (+65535, 65536, 2^20, 2^21+5 thorough)} × versions (every length 0..16, an interior NUL, a leading NUL, trailing spaces): Marshal's count = bytes written = Size = HeaderSize + encoding length, wire bytes = independently built header + encoding, ReadHeader = (version, 32, length) consuming 32 bytes; " +
 			"(histories) every stream of 1..3 frames over a 6-frame sub-alphabet, read back by k+1 Unmarshal calls under every reader chunking with ≤B deviations from 'deliver as much as asked' (deviations: return only j bytes for any j, deliver the last bytes together with io.EOF, one (0,nil) read) plus every uniform chunk size 1..len; every stream also through 11 standard-library reader types and every frame marshalled into 4 standard-library writer types (code may special-case dynamic types); every stream also MARSHALLED frame after frame into one writer (the last message object twice) and read back into reused target messages; three streams in which a frame with a body above 1 MiB is followed by further frames, under whole/uniform chunkings and one forced short read around every frame boundary, body start and power of two; each call must return the next message, its version, n = frame length = bytes actually pulled from the reader, and the extra call (0, cause io.EOF). " +
 			"states = choice-tree nodes (= executions), transitions = reader answers given. Non-trivial: executions with at least one deviation or a multi-frame stream.",
 		Assumptions: []string{
@@ -698,9 +701,63 @@ func c06Run(c *mc.Ctx) {
 		}
 		c.Set("replay_determinism_checked", true)
 	}
+	c06Scheduled(c)
+}
+
+// c06Scheduled runs the E4 part (props/c06_sched.go) in the instrumented binary check.sh built.
+func c06Scheduled(c *mc.Ctx) {
+	if mc.Variant() != "" {
+		return // the main configuration only
+	}
+	bin := os.Getenv("VERIF_SCHED_BIN")
+	if bin == "" {
+		c.Cap("no instrumented binary (VERIF_SCHED_BIN unset or the overlay build failed: " + os.Getenv("VERIF_SCHED_ERR") + "): concurrent Marshal / Unmarshal callers were not explored")
+		return
+	}
+	cmd := exec.Command(bin, "-worker", "c06sched", "schedules", c.Tier)
+	cmd.Env = append(os.Environ(), "GOMAXPROCS=1")
+	cmd.Stderr = os.Stderr
+	b, err := cmd.Output()
+	var out struct {
+		Programs, Schedules, Points int64
+		MaxPoints                   int
+		Stuck                       []string
+		Viols                       []mc.Viol
+	}
+	if err != nil || json.Unmarshal(b, &out) != nil {
+		panic(fmt.Sprintf("harness: scheduled C06 worker failed: %v %s", err, clipS(string(b))))
+	}
+	c.Add("scheduled_programs", out.Programs)
+	c.Add("schedules", out.Schedules)
+	c.Add("states", out.Schedules)
+	c.Add("transitions", out.Points)
+	c.Max("max_points_per_execution", int64(out.MaxPoints))
+	c.Count(out.Schedules, out.Schedules)
+	c.Expect(out.Schedules)
+	for _, st := range out.Stuck {
+		c.Cap("a thread blocked outside the scheduler in program " + st)
+	}
+	for _, v := range out.Viols {
+		var cs c06Case
+		json.Unmarshal(v.Case, &cs)
+		c.Fail(9<<50|v.Order, v.Kind, v.Class, cs, v.Got, v.Want)
+	}
 }
 
 func c06Judge(kind string, cs c06Case) (got, want string) {
+	if kind == "schedule" {
+		bin := os.Getenv("VERIF_SCHED_BIN")
+		if bin == "" {
+			return "this case needs the instrumented binary (VERIF_SCHED_BIN); use /verif/check.sh replay", ""
+		}
+		raw, _ := json.Marshal(cs)
+		out, err := exec.Command(bin, "-worker", "c06sched", "judge", string(raw)).Output()
+		var gw [2]string
+		if err != nil || json.Unmarshal(out, &gw) != nil {
+			return fmt.Sprint("instrumented judge failed: ", err), ""
+		}
+		return gw[0], gw[1]
+	}
 	switch kind {
 	case "marshalseq":
 		return c06MarshalSeq(cs.Frames)
